@@ -6,6 +6,8 @@ import (
 	"encoding/json"
 	"errors"
 	"fmt"
+	"os"
+	"path/filepath"
 	"sort"
 	"strings"
 	"time"
@@ -199,8 +201,22 @@ func (w *world) build(rs recSpec, old *mrec, kind string, t0 int64) (record.Reco
 	switch rs.Form {
 	case "struct":
 		c := rs.C.full()
-		nm.c = c
 		t := &TestRec{S: *c.S, T: *c.T, I: *c.I, N: *c.N, F: *c.F, B: *c.B}
+		// the model's view of a typed record is its serialized form
+		nm.c, _ = jsonView(t)
+		t.SetKey(w.fullKey(rs.Key))
+		if pm != nil {
+			t.SetMeta(pm)
+		}
+		rec = t
+	case "estruct":
+		c := rs.C.full()
+		t := &TestRecE{EIn1: EIn1{EIn2: EIn2{I: *c.I}, S: *c.S}, EPtr: &EPtr{F: *c.F, B: *c.B},
+			EShadow: EShadow{T: "decoy:" + *c.T, N: *c.N}, T: *c.T}
+		if rs.NilPtr {
+			t.EPtr = nil
+		}
+		nm.c, _ = jsonView(t)
 		t.SetKey(w.fullKey(rs.Key))
 		if pm != nil {
 			t.SetMeta(pm)
@@ -290,24 +306,35 @@ func (w *world) cmpRecord(key string, mr *mrec, r record.Record, now1 int64) (ki
 	}
 	var gotC string
 	switch t := r.(type) {
-	case *TestRec:
-		gotC = "struct " + t.content().String()
-		if mr.form != "struct" {
+	case *TestRec, *TestRecE:
+		form := "struct"
+		if _, ok := t.(*TestRecE); ok {
+			form = "estruct"
+		}
+		c, err := jsonView(t)
+		gotC = form + " " + c.String()
+		if mr.form != form {
 			kinds = append(kinds, "form")
-		} else if !t.content().equal(mr.c) {
+		} else if err != nil || !c.equal(mr.c) {
 			kinds = append(kinds, "data")
 		}
 	case *record.Wrapper:
 		gotC = fmt.Sprintf("wrapped format=%d %q", t.Format, trunc(t.Data, 200))
 		switch mr.form {
-		case "struct":
+		case "struct", "estruct":
 			if t.Format != dsd.JSON {
 				kinds = append(kinds, "format")
 			} else {
-				var x TestRec
-				if err := dsd.LoadAsFormat(t.Data, t.Format, &x); err != nil {
+				// must load into the typed record again and show the same fields
+				var x record.Record = &TestRec{}
+				if mr.form == "estruct" {
+					x = &TestRecE{}
+				}
+				if err := dsd.LoadAsFormat(t.Data, t.Format, x); err != nil {
 					kinds = append(kinds, "undecodable")
-				} else if !x.content().equal(mr.c) {
+				} else if c, err := jsonView(x); err != nil || !c.equal(mr.c) {
+					kinds = append(kinds, "data")
+				} else if c2, err := jsonViewOf(t.Data); err != nil || !c2.equal(mr.c) {
 					kinds = append(kinds, "data")
 				}
 			}
@@ -486,6 +513,9 @@ func (w *world) doPut(o op) {
 	nm.meta.update(t0, t1)
 	w.b.Count("op/"+o.K, 1)
 	w.b.Count("form/"+rs.Form, 1)
+	if rs.NilPtr {
+		w.b.Count("nil_embedded_pointer_records", 1)
+	}
 	w.logf("%s %q form=%s meta=%s edits=%v c=%s -> %s", o.K, rs.Key, rs.Form, rs.Meta, rs.Edits, rs.C.String(), errClass(err))
 	w.used[rs.Key] = true
 	cls := o.K
@@ -760,6 +790,11 @@ func condClass(q *qSpec) string {
 
 func (w *world) doQuery(q *qSpec, why string) {
 	pq := q.build(w.db)
+	if childDir != "" && w.cfg.Backend == "hashmap" {
+		// conditions run inside the storage's executor goroutine on this backend: a panic
+		// there is process-fatal, so name the query first
+		_ = os.WriteFile(filepath.Join(childDir, "current_step"), []byte(fmt.Sprintf("history %d step %d: query(%s) %s", w.h.No, w.step, why, q)), 0o644)
+	}
 	t0 := nowS()
 	it, err := w.iface.Query(pq)
 	w.b.Count("op/query", 1)
@@ -1102,7 +1137,7 @@ func (w *world) doWait(o op) {
 	case "wait_rel":
 		w.doSetExpiry("setrel", key, false, 1)
 	case "wait_put":
-		rs := recSpec{Key: key, Form: vlib.Pick(vlib.NewRand(uint64(w.h.No), "waitform", uint64(w.step)), "struct", "json"), Meta: "keep",
+		rs := recSpec{Key: key, Form: vlib.Pick(vlib.NewRand(uint64(w.h.No), "waitform", uint64(w.step)), "struct", "json", "estruct"), Meta: "keep",
 			Edits: []medit{{K: "rel", V: 1}}}
 		s := "waiting"
 		rs.C = content{S: &s}
